@@ -47,6 +47,24 @@ Clause -> case family
         the waiter returns; silence, frames of another node, only non-boot-up
         heartbeats (for wait_for_bootup) and a stale heartbeat received before
         the wait must all end in NmtError.
+        "busy" waits (enum_wait_busy, wait_history(busy=True)): the feeder first
+        plays a one-shot schedule ``pre`` - silences of 0.1 .. 0.7 s (2.5 s
+        thorough; the caller's time-out is 6 s longer), NMT command frames of
+        another master for {awaited node, 0, other node, unowned ids}, defined
+        and undefined specifiers, ``send_command`` calls on the RemoteNodes /
+        network.nmt from the feeder thread, heartbeats of other nodes and (boot
+        waits) non-boot-up heartbeats of the awaited node - and only then the
+        cyclic matching frames.  None of the one-shot events is the awaited
+        message: the positive wait still returns (never an early NmtError), the
+        negative one still ends in NmtError (time-out = schedule + 70 ms), and
+        the five views / the frames follow the schedule like in any other step.
+        The waiting RemoteNode is A or B; several waits follow each other on
+        one object (what arrived during an earlier wait is not a message of the
+        next; a failed wait leaves the object usable).
+  * "the heartbeat toggle bit is ignored" over sequences
+        fam "hbseq": all pairs over 7 state values x toggle bit on one node and
+        interleaved on two nodes, all triples over 8 bytes (thorough: all 65536
+        byte pairs) - every heartbeat is decoded on its own.
 
 Deviations from DESIGN.md (soundness / cost):
   * two node pairs instead of one, so "commands for other nodes change
@@ -82,8 +100,13 @@ RULE = ("case = (node ids, heartbeat time, start state, history of steps); steps
         "Enumerated: all sequences of <=2 (quick) / <=4 (thorough) symbols over 11 command specifiers x "
         "{A, broadcast, B} x issue routes (lengths 3/4: route rotates with the index, one node pair), from "
         "INITIALISING and from PRE-OPERATIONAL; all 256 heartbeat "
-        "bytes; all names + invalid strings; local name pairs; wait matrix. Hypothesis: histories up to 12 "
-        "steps with arbitrary specifiers/ids/bytes/strings. Oracle: CiA 301 table model RefNmt compared "
+        "bytes; heartbeat pairs/triples with and without toggle bit on one and two nodes; all names + invalid "
+        "strings; local name pairs; wait matrix; busy waits: a one-shot schedule (silence 0.1-0.7 s, NMT command "
+        "frames of another master for {awaited, 0, other, unowned} x defined/undefined cs, send_command calls from "
+        "the feeder thread, other nodes' heartbeats, non-boot-up heartbeats of the awaited node) precedes the "
+        "cyclic matching frames (positive: must return, time-out = schedule + 6 s) or nothing (negative: NmtError), "
+        "waiting node A or B, two or three waits in a row on one object. Hypothesis: histories up to 12 "
+        "steps with arbitrary specifiers/ids/bytes/strings, wait histories with random schedules. Oracle: CiA 301 table model RefNmt compared "
         "after every step (5 state views + frames sent by each side). Non-trivial: >=2 distinct effective "
         "commands, or a foreign-target / undefined specifier, an invalid name, a heartbeat byte the "
         "repository tests do not feed, any wait. distinct = canonical JSON of the case.")
@@ -94,8 +117,16 @@ ASSUMPTIONS = [
     "a RemoteNode does not hear frames sent by its own Network (like on a real bus): after a broadcast of "
     "network.nmt the RemoteNode view may be either unchanged or the new state",
     "'rejected' = any exception; 'the NMT error' = canopen.nmt.NmtError",
-    "waits: events arrive immediately (2 ms feeder) or never (30 ms time-out); only wrong value / "
-    "missing error / missed message are decided",
+    "waits: the matching message is repeated every 2 ms from the end of the one-shot schedule (0 .. 0.7 s, "
+    "thorough 2.5 s after the call) until the waiter is back, the caller's time-out is 6 s longer than the "
+    "schedule; or it never comes (time-out 30 ms, schedule + 70 ms when there is one). Decided: wrong value / "
+    "missing error / NmtError although the match came within the time-out / return later than 3 s after the "
+    "first match. A one-shot event may reach the node before the wait began (loaded machine): the expectation "
+    "is the same in that case, only the sensitivity is lost",
+    "frames the SLAVE side itself puts on 0x700+id of the awaited node during a wait (truthful heartbeat, boot-up "
+    "after a reset command - canopen's LocalNode sends neither) count as messages: the negative verdict and the "
+    "tight return value are only demanded when there were none",
+    "frames of the third port carry increasing bus time-stamps like the frames the Networks send themselves",
     "the local dictionary contains 0x1017 with a default (the slave reads it when entering PRE-OPERATIONAL)",
 ]
 BUDGET = {"quick": 150, "thorough": 400}
@@ -219,6 +250,11 @@ class Rig:
     def master_obj(self, to):
         return self.mnet.nmt if to == "all" else self.remote[to].nmt
 
+    def put(self, can_id, data):
+        """a frame of the third port (another master / another producer), time-stamped like the frames
+        the two Networks send themselves (increasing bus clock)"""
+        self.hub.route(Frame(can_id, bytes(data), src=self.third, ts=self.hub.now()))
+
     def hb_tasks(self, T):
         cid = 0x700 + self.ids[T]
         return [t for t in self.hub.live_tasks() if t.port is self.sport and t.msg.arbitration_id == cid]
@@ -238,35 +274,169 @@ def _frames_match(got, want):
     return True
 
 
-def _run_wait(rig, op):
-    feed = [(to, b) for to, b in op["feed"]]
-    a_bytes = [b for to, b in feed if to == "A"]
-    if op["what"] == "hb":
-        expect_return = bool(a_bytes)
-    else:
-        expect_return = any(b & 0x7F == 0 for b in a_bytes)
-    timeout = 6.0 if expect_return else 0.03
+def _wait_items(op):
+    """The one-shot part of a wait's schedule ("pre") as a list of tuples."""
+    out = []
+    for it in op.get("pre", []):
+        k = it[0]
+        if k == "sleep":
+            out.append(("sleep", int(it[1])))
+        elif k == "hb":
+            out.append(("hb", it[1], int(it[2])))       # heartbeat byte from the third port: to, byte
+        elif k in ("raw", "cmd"):
+            out.append((k, int(it[1]), it[2]))          # command: cs, to
+        else:
+            raise ValueError(it)
+    return out
+
+
+def _concerned(rig, tid):
+    return [T for T in rig.nodes if tid in (rig.ids[T], 0)]
+
+
+def _wait_plan(rig, op, before):
+    """Everything the oracle says about one wait step, from the case alone (no clock).
+
+    Schedule of the feeder thread: the one-shot items ``pre`` in order (silence, NMT command frames
+    of another master, commands issued through the master objects of this Network, heartbeats),
+    ALWAYS all of them, then the cyclic ``feed`` (heartbeat bytes) every 2 ms until the waiter is
+    back.  The matching message must be in the cyclic part (a one-shot match could arrive before
+    the wait began)."""
+    ids, nodes = rig.ids, rig.nodes
+    w = op.get("on", "A")
+    what = op["what"]
+    if w not in nodes:
+        raise _Excluded("wait on a node the case does not have")
+    pre = _wait_items(op)
+    cyc = [(to, int(b)) for to, b in op["feed"]]
+    for it in pre:
+        if it[0] == "cmd" and it[2] != "all" and it[2] not in nodes:
+            raise _Excluded("step needs node B but the case has only one node pair")
+
+    def is_match(to, b):
+        return to == w and (what == "hb" or b & 0x7F == 0)
+
+    cyc_match = any(is_match(to, b) for to, b in cyc)
+    pre_match = any(it[0] == "hb" and is_match(it[1], it[2]) for it in pre)
+    if pre_match and not cyc_match:
+        raise _Excluded("wait: the only matching message is sent once (it may arrive before the wait began)")
+    w_pre_bytes = [it[2] for it in pre if it[0] == "hb" and it[1] == w]
+    w_bytes = [b for to, b in cyc if to == w]
+    resets = []          # nodes a reset command of the schedule concerns (with repetition)
+    w_cmd_states = set()
+    for it in pre:
+        if it[0] in ("raw", "cmd") and it[1] in CS_STATE:
+            con = _concerned(rig, ids[it[2]])
+            if it[1] in (129, 130):
+                resets += con
+            if w in con:
+                w_cmd_states.add(CS_STATE[it[1]])
+    want_m = [(0, {bytes([it[1], ids[it[2]]])}) for it in pre if it[0] == "cmd"]
+    # states every slave passes through while the schedule runs (a slave may report any of them truthfully)
+    l_states = {T: {tok(before["l" + T])} for T in nodes}
+    for it in pre:
+        if it[0] in ("raw", "cmd") and it[1] in CS_STATE:
+            for T in _concerned(rig, ids[it[2]]):
+                l_states[T].add(CS_STATE[it[1]])
+
+    def sim(boot):
+        """views after the step; boot: the slaves answer reset commands with a boot-up message"""
+        cur = {v: SAME for v in rig.views}
+
+        def setv(v, s_):
+            cur[v] = set(s_)
+
+        def addv(v, s_):
+            cur[v] = ({tok(before[v])} if cur[v] is SAME else cur[v]) | set(s_)
+
+        for it in pre:
+            if it[0] == "hb":
+                if it[1] in nodes:
+                    setv("r" + it[1], {decode_hb(it[2])})
+            elif it[0] in ("raw", "cmd") and it[1] in CS_STATE:
+                cs, to = it[1], it[2]
+                new = CS_STATE[cs]
+                for T in _concerned(rig, ids[to]):
+                    setv("l" + T, {new})
+                    if it[0] == "raw" or to == T:
+                        setv("r" + T, {new})
+                    else:                        # broadcast of network.nmt: its own RemoteNodes do not hear it
+                        addv("r" + T, {new})
+                    if boot and cs in (129, 130):
+                        setv("l" + T, {INIT, PREOP})
+                        setv("r" + T, {INIT, PREOP})
+                if ids[to] == 0:
+                    if it[0] == "raw":
+                        addv("net", {new})       # a broadcast master may follow another master
+                    else:
+                        setv("net", {new})
+        return cur
+
+    tight = not pre_match
+    exps = []
+    # exps[0]: the waiter came back on a cyclic frame; exps[1]: it may have come back earlier (the slave
+    # itself reported during the schedule), the cyclic part possibly never ran; exps[2]: ... with boot-ups
+    for boot, early in ((False, False), (False, True), (True, True)):
+        cur = sim(boot)
+        for T in nodes:
+            got = {decode_hb(b) for to, b in cyc if to == T}
+            if got:
+                if T == w and cyc_match and tight and not early:
+                    cur["r" + T] = set(got)
+                else:
+                    cur["r" + T] = ({tok(before["r" + T])} if cur["r" + T] is SAME else cur["r" + T]) | got
+        exps.append(cur)
+    ret_tight = {decode_hb(b) for b in w_bytes}
+    ret_loose = ret_tight | {decode_hb(b) for b in w_pre_bytes} | w_cmd_states
+    pre_s = sum(it[1] for it in pre if it[0] == "sleep") / 1000.0
+    return {"w": w, "what": what, "pre": pre, "cyc": cyc, "expect_return": cyc_match, "tight": tight,
+            "w_bytes": w_bytes, "resets": resets, "want_m": want_m, "exp": exps[0], "exp_early": exps[1], "exp_boot": exps[2],
+            "ret_tight": ret_tight, "ret_loose": ret_loose, "pre_s": pre_s, "l_states": l_states,
+            # negative waits may name a longer time-out ("timeout_ms"): no gap of the 2 ms feeder comes near it
+            "timeout": (6.0 + pre_s) if cyc_match else
+            max(0.03 + pre_s + (0.04 if pre else 0.0), op.get("timeout_ms", 0) / 1000.0)}
+
+
+def _run_wait(rig, plan):
+    pre, cyc, w, what = plan["pre"], plan["cyc"], plan["w"], plan["what"]
+    ids = rig.ids
     stop = threading.Event()
+    feed_errors = []
+
+    def one(it):
+        if it[0] == "sleep":
+            stop.wait(it[1] / 1000.0)        # cut short once the waiter is back; the frames still all go out
+        elif it[0] == "hb":
+            rig.put(0x700 + ids[it[1]], bytes([it[2]]))
+        elif it[0] == "raw":
+            rig.put(0, bytes([it[1], ids[it[2]]]))
+        else:
+            try:
+                rig.master_obj(it[2]).send_command(it[1])
+            except Exception as e:           # judged by the caller
+                feed_errors.append((it, e))
 
     def feeder():
+        for it in pre:
+            one(it)
         i = 0
-        while not stop.is_set():
-            to, b = feed[i % len(feed)]
+        while cyc and not stop.is_set():
+            to, b = cyc[i % len(cyc)]
             i += 1
-            rig.hub.route(Frame(0x700 + rig.ids[to], bytes([b]), src=rig.third))
+            rig.put(0x700 + ids[to], bytes([b]))
             stop.wait(0.002)
 
-    th = threading.Thread(target=feeder, daemon=True) if feed else None
-    nmt = rig.remote["A"].nmt
+    th = threading.Thread(target=feeder, daemon=True) if (pre or cyc) else None
+    nmt = rig.remote[w].nmt
     ret, exc = None, None
     if th:
         th.start()
     t_call = time.monotonic()
     try:
-        if op["what"] == "hb":
-            ret = nmt.wait_for_heartbeat(timeout)
+        if what == "hb":
+            ret = nmt.wait_for_heartbeat(plan["timeout"])
         else:
-            ret = nmt.wait_for_bootup(timeout)
+            ret = nmt.wait_for_bootup(plan["timeout"])
     except Exception as e:  # judged below
         exc = e
     finally:
@@ -274,7 +444,7 @@ def _run_wait(rig, op):
         stop.set()
         if th:
             th.join()
-    return expect_return, a_bytes, ret, exc, elapsed
+    return ret, exc, elapsed, feed_errors
 
 
 def step(rig, model, op, D, tag, before):
@@ -287,6 +457,8 @@ def step(rig, model, op, D, tag, before):
     exp = {v: SAME for v in rig.views}      # default: nothing changes
     want_m, want_s = [], []              # frames the master / slave side must have sent
     opt_bootup = None                    # slave T may answer a reset command with a boot-up (real devices do)
+    exp_boot = None                      # wait steps: the views when the slaves did answer that way
+    passed = None                        # wait steps: the states each slave passes through during the step
     must_raise = False
     exc = None
     ticked = []
@@ -308,7 +480,7 @@ def step(rig, model, op, D, tag, before):
     # ---- act + model -------------------------------------------------------------
     if kind == "raw":
         cs, tid = op["cs"], ids[op["to"]]
-        rig.hub.route(Frame(0, bytes([cs, tid]), src=rig.third))
+        rig.put(0, bytes([cs, tid]))
         model.delivered(cs, tid, exp, to_slaves=True, to_masters=True)
         if tid == 0 and cs in CS_STATE:
             exp["net"] = {tok(before["net"]), CS_STATE[cs]}    # a broadcast master may follow another master
@@ -367,7 +539,7 @@ def step(rig, model, op, D, tag, before):
                 exp["r" + T] = {PREOP}       # the master hears the boot-up
     elif kind == "hb":
         to = op["to"]
-        rig.hub.route(Frame(0x700 + ids[to], bytes([op["byte"]]), src=rig.third))
+        rig.put(0x700 + ids[to], bytes([op["byte"]]))
         if to in nodes:
             exp["r" + to] = {decode_hb(op["byte"])}
     elif kind == "tick":
@@ -386,32 +558,53 @@ def step(rig, model, op, D, tag, before):
                     return
             exp["r" + T] = {decode_hb(code)}
     elif kind == "wait":
-        expect_return, a_bytes, ret, wexc, elapsed = _run_wait(rig, op)
-        what = op["what"]
+        plan = _wait_plan(rig, op, before)
+        ret, wexc, elapsed, feed_errors = _run_wait(rig, plan)
+        what, w = plan["what"], plan["w"]
+        expect_return, w_bytes = plan["expect_return"], plan["w_bytes"]
+        sched = f"schedule pre={op.get('pre', [])} then {op['feed']} every 2 ms"
+        if feed_errors:
+            it, e = feed_errors[0]
+            bad("cmd/raises", f"{type(e).__name__}: {e} from send_command{it[1:]} issued by another thread "
+                              f"during wait_for_{what}")
+            return
+        # frames the slave side itself put on 0x700+id of the awaited node during the step (a slave may
+        # report truthfully at any time, may answer a reset with a boot-up): they are messages too
+        own = [f for f in rig.sport.sent[s0:] if f.can_id == 0x700 + ids[w]]
         if wexc is not None and not isinstance(wexc, rig.NmtError):
             bad(f"wait-{what}/raises", f"{type(wexc).__name__}: {wexc}")
             return
         if expect_return and wexc is not None:
-            bad(f"wait-{what}/missed-message", f"NmtError({wexc}) although matching frames "
-                                               f"{[hex(b) for b in a_bytes]} were repeated every 2 ms for 6 s")
+            bad(f"wait-{what}/missed-message",
+                f"NmtError({wexc}) after {elapsed:.2f} s of a {plan['timeout']:.2f} s time-out although matching "
+                f"frames {[hex(b) for b in w_bytes]} for node {w} were repeated every 2 ms from "
+                f"{plan['pre_s']:.2f} s after the call until it came back; {sched}")
             return
-        if expect_return and elapsed > 3.0:
+        if expect_return and elapsed > 3.0 + plan["pre_s"]:
             # "returns on the matching message": the frame is repeated every 2 ms, the caller's
-            # own time-out is 6 s - coming back only when that runs out is not returning on the message
-            bad(f"wait-{what}/late", f"matching frames {[hex(b) for b in a_bytes]} were repeated every 2 ms but the "
-                                     f"call only returned after {elapsed:.1f} s (its time-out was 6 s)")
+            # own time-out is 6 s more than the schedule - coming back only when that runs out is not
+            # returning on the message
+            bad(f"wait-{what}/late", f"matching frames {[hex(b) for b in w_bytes]} were repeated every 2 ms from "
+                                     f"{plan['pre_s']:.2f} s on but the call only returned after {elapsed:.1f} s "
+                                     f"(its time-out was {plan['timeout']:.1f} s); {sched}")
             return
-        if not expect_return and wexc is None:
-            bad(f"wait-{what}/no-error", f"returned {ret!r} although no matching message arrived "
-                                         f"(feed {op['feed']})")
+        if not expect_return and wexc is None and not own:
+            bad(f"wait-{what}/no-error", f"returned {ret!r} although no matching message arrived; {sched}")
             return
-        if expect_return and what == "hb" and not fits(ret, {decode_hb(b) for b in a_bytes}):
-            bad("wait-hb/value", f"returned {ret!r} for heartbeat bytes {[hex(b) for b in a_bytes]}")
-            return
-        for T in nodes:
-            got = {decode_hb(b) for to, b in op["feed"] if to == T}
-            if got:
-                exp["r" + T] = got if (T == "A" and expect_return) else got | {tok(before["r" + T])}
+        if expect_return and what == "hb":
+            allowed = set(plan["ret_tight"] if plan["tight"] and not own else plan["ret_loose"])
+            for f in own:
+                if len(f.data) == 1:
+                    allowed.add(decode_hb(f.data[0]))
+            if not fits(ret, allowed):
+                bad("wait-hb/value", f"returned {ret!r}; heartbeat bytes for node {w}: {[hex(b) for b in w_bytes]}; "
+                                     f"{sched}")
+                return
+        want_m = plan["want_m"]
+        exp.update(plan["exp_early"] if own else plan["exp"])
+        opt_bootup = list(plan["resets"])
+        exp_boot = plan["exp_boot"]
+        passed = plan["l_states"]
     elif kind == "replace":
         # the slave object of node T is replaced by a fresh LocalNode with the same id (the old one is
         # removed from the network); the new one starts in INITIALISING, nobody else is concerned
@@ -467,7 +660,9 @@ def step(rig, model, op, D, tag, before):
     # chooses to report; boot-up messages (state 0) are judged below
     def _truthful(f):
         return (not f.remote and not f.extended and len(f.data) == 1 and f.data[0] != 0 and
-                any(f.can_id == 0x700 + ids[T] and fits(after["l" + T], {decode_hb(f.data[0])}) for T in nodes)
+                any(f.can_id == 0x700 + ids[T] and (fits(after["l" + T], {decode_hb(f.data[0])}) or
+                                                    (passed is not None and decode_hb(f.data[0]) in passed[T]))
+                    for T in nodes)
                 and not any(f.can_id == c for c, _d in want_s))
     for f in sf:
         if _truthful(f):
@@ -483,16 +678,19 @@ def step(rig, model, op, D, tag, before):
             # a slave may announce the re-initialisation it was commanded to do
             cand = {0x700 + ids[T]: T for T in opt_bootup}
             if all(f.can_id in cand and f.data == b"\x00" and not f.remote and not f.extended for f in sf) \
-                    and len({f.can_id for f in sf}) == len(sf):
-                booted = [cand[f.can_id] for f in sf]
+                    and all(sum(1 for f in sf if f.can_id == c) <= opt_bootup.count(T) for c, T in cand.items()):
+                booted = sorted({cand[f.can_id] for f in sf})
                 ok = True
         if not ok:
             bad(f"{kind}/slave-frames", f"slave side sent {_fr(sf)}, want "
                 f"{[(hex(c), sorted(d.hex() for d in ds)) for c, ds in want_s]}")
             return
     for T in booted:
-        exp["l" + T] = {INIT, PREOP}
-        exp["r" + T] = {PREOP}
+        if exp_boot is not None:
+            exp["l" + T], exp["r" + T] = exp_boot["l" + T], exp_boot["r" + T]
+        else:
+            exp["l" + T] = {INIT, PREOP}
+            exp["r" + T] = {PREOP}
 
     # views
     for v in rig.views:
@@ -572,6 +770,29 @@ def _nontrivial(case):
     return len(eff) >= 2
 
 
+def _wait_class(op):
+    w = op.get("on", "A")
+    pre = op.get("pre", [])
+    a = [b for to, b in op["feed"] if to == w]
+    match = bool(a) if op["what"] == "hb" else any(b & 0x7F == 0 for b in a)
+    if match:
+        feed = "with-noise" if len(op["feed"]) > 1 else "only-match"
+    else:
+        feed = "silence" if not op["feed"] else "own-nonmatching" if a else "other-node"
+    out = f"{op['what']}{'' if w == 'A' else '-on-' + w}/{'returns' if match else 'NmtError'}/{feed}"
+    silence = sum(it[1] for it in pre if it[0] == "sleep")
+    if silence >= 100:
+        out += "/delayed"
+    kinds = {it[0] for it in pre}
+    if "raw" in kinds:
+        out += "/cmd-frames-during"
+    if "cmd" in kinds:
+        out += "/send_command-during"
+    if "hb" in kinds:
+        out += "/hb-before-match"
+    return out
+
+
 def _klass(case):
     fam = case.get("fam", "hist")
     ops = case["ops"]
@@ -594,24 +815,24 @@ def _klass(case):
     if fam == "local":
         return f"local/hb_ms={'0' if not case.get('hb_ms') else '>0'}/" \
                f"{'modify' if case.get('mod', True) else 'restart'}-tasks"
+    if fam == "hbseq":
+        hbs = [o for o in ops if o["op"] == "hb"]
+        tg = sum(1 for o in hbs if o["byte"] & 0x80)
+        return f"hbseq/len{len(hbs)}/{'one-node' if len({o['to'] for o in hbs}) == 1 else 'two-nodes'}/" \
+               f"toggle-bits={tg}"
     if fam == "wait":
-        wi = [i for i, o in enumerate(ops) if o["op"] == "wait"][0]
-        op = ops[wi]
-        a = [b for to, b in op["feed"] if to == "A"]
-        match = bool(a) if op["what"] == "hb" else any(b & 0x7F == 0 for b in a)
-        if match:
-            feed = "with-noise" if len(op["feed"]) > 1 else "only-match"
-        else:
-            feed = "silence" if not op["feed"] else "own-nonmatching" if a else "other-node"
-        return f"wait/{op['what']}/{'returns' if match else 'NmtError'}/{feed}" \
-               f"{'/stale-before' if wi and ops[wi - 1]['op'] == 'hb' else ''}"
+        wis = [i for i, o in enumerate(ops) if o["op"] == "wait"]
+        wi = wis[-1]
+        return "wait/" + _wait_class(ops[wi]) + \
+               f"{'/stale-before' if wi and ops[wi - 1]['op'] == 'hb' else ''}" \
+               f"{'/after-' + _wait_class(ops[wis[-2]]).split('/')[0] + '-wait' if len(wis) > 1 else ''}"
     kinds = {op["op"] for op in ops}
     n = len(ops)
     ln = "1-3" if n <= 3 else "4-7" if n <= 7 else "8-12"
     flags = []
     if "wait" in kinds:
         w = [o for o in ops if o["op"] == "wait"][0]
-        flags.append("wait-" + w["what"])
+        flags.append("wait-" + w["what"] + ("-busy" if w.get("pre") else ""))
     if any(op["op"] in ("name", "lname") and op["name"] not in NAME_CS for op in ops):
         flags.append("badname")
     if any(op["op"] in ("raw", "cmd") and op["cs"] not in CS_STATE for op in ops):
@@ -782,6 +1003,124 @@ def enum_wait(thorough):
     yield _base("wait", "preop", [{"op": "hb", "byte": 0, "to": "A"}, W("boot", [["A", 5]])])
 
 
+def _W(what, feed, pre=(), on="A", timeout_ms=None):
+    op = {"op": "wait", "what": what, "feed": [list(x) for x in feed]}
+    if timeout_ms:
+        op["timeout_ms"] = timeout_ms
+    if pre:
+        op["pre"] = [list(x) for x in pre]
+    if on != "A":
+        op["on"] = on
+    return op
+
+
+MATCH = {"hb": 5, "boot": 0}
+GAP = ("sleep", 12)       # lets the waiter get into its wait before the first one-shot frame goes out
+NOISE_RAW_Q = [(cs, to) for cs in (1, 2, 128, 80, 129, 130, 3, 255) for to in ("A", "all", "B", "none")]
+NOISE_CMD_Q = [(cs, to) for cs in (1, 2, 128, 129, 0) for to in ("A", "B", "all")]
+NEG_NOISE_Q = [("raw", 1, "A"), ("raw", 128, "all"), ("raw", 2, "B"), ("raw", 3, "A"), ("raw", 129, "A"),
+               ("raw", 130, "all"), ("raw", 1, "none"), ("cmd", 1, "A"), ("cmd", 2, "all"), ("cmd", 128, "B"),
+               ("cmd", 129, "A")]
+
+
+def enum_wait_busy(thorough):
+    """The bus and the application are not idle while somebody waits: the matching message comes after
+    a silence (longer than any polling slice an implementation might use), NMT command frames of another
+    master / send_command calls of another thread / heartbeats of other nodes arrive first.  None of them
+    is the awaited message: the wait returns on the match (positive) or ends in NmtError (negative)."""
+    starts = ("preop", "init")
+    n = 0
+
+    def case(ops):
+        nonlocal n
+        n += 1
+        return _base("wait", starts[n % 2], ops)
+
+    # (A) silence first, then the match (time-out: 6 s more than the silence)
+    delays = [150, 300, 700] + ([450, 1000, 1500, 2500] if thorough else [])
+    for what in ("hb", "boot"):
+        m = MATCH[what]
+        for d in delays:
+            yield case([_W(what, [["A", m]], [("sleep", d)])])
+        # ... with other traffic in the silence
+        yield case([_W(what, [["A", m]], [("sleep", 60), ("hb", "B", 5), ("sleep", 110), ("raw", 1, "B"),
+                                          ("sleep", 110), ("hb", "none", 0), ("sleep", 60)])])
+        yield case([_W(what, [["B", 4], ["A", m | 0x80]], [("sleep", 120), ("raw", 128, "all"), ("sleep", 120),
+                                                         ("cmd", 1, "B"), ("sleep", 120)])])
+    yield case([_W("boot", [["A", 0]], [("sleep", 50), ("hb", "A", 5), ("sleep", 120), ("hb", "A", 0x7F),
+                                        ("sleep", 120), ("hb", "A", 0x85), ("sleep", 50)])])
+    yield case([_W("boot", [["A", 4], ["A", 0x80]], [("sleep", 130), ("hb", "A", 4), ("sleep", 130)])])
+    yield case([_W("hb", [["B", 5]], [("sleep", 250)], on="B")])
+    yield case([_W("boot", [["A", 0], ["B", 0x80]], [("sleep", 250), ("hb", "A", 0), ("sleep", 5)], on="B")])
+
+    # (B) one other event between the start of the wait and the match
+    raws = [(cs, to) for cs in ALL_CS for to in ("A", "all", "B", "none", "Ahi", "hi0")] if thorough else NOISE_RAW_Q
+    cmds = [(cs, to) for cs in ALL_CS for to in ("A", "B", "all")] if thorough else NOISE_CMD_Q
+    for what in ("hb", "boot"):
+        m = MATCH[what]
+        noise = [("raw", cs, to) for cs, to in raws] + [("cmd", cs, to) for cs, to in cmds] + \
+                [("hb", "B", 5), ("hb", "B", 0), ("hb", "none", 0), ("hb", "none", 0x85)]
+        if what == "boot":
+            noise += [("hb", "A", b) for b in (5, 0x7F, 0x85, 4, 1, 0xFF)]
+        for k, it in enumerate(noise):
+            yield case([_W(what, [["A", m | (0x80 if k % 2 else 0)]], [GAP, it, ("sleep", 4)])])
+        # two and three events
+        for k in range(0, len(noise) - 2, 5 if not thorough else 1):
+            yield case([_W(what, [["B", 5], ["A", m]], [GAP, noise[k], ("sleep", 2), noise[k + 1], ("sleep", 2),
+                                                        noise[k + 2], ("sleep", 2)])])
+        # the other node is the awaited one
+        for it in (("raw", 1, "A"), ("raw", 2, "all"), ("cmd", 1, "A"), ("cmd", 128, "B"), ("hb", "A", m)):
+            yield case([_W(what, [["B", m]], [GAP, it, ("sleep", 4)], on="B")])
+    # (C) ... and no match at all: NmtError (the time-out covers the schedule)
+    negs = [("raw", cs, to) for cs, to in raws] + [("cmd", cs, to) for cs, to in cmds] if thorough else NEG_NOISE_Q
+    for what in ("hb", "boot"):
+        for it in (negs if thorough or what == "hb" else negs[::2]):
+            yield case([_W(what, [], [GAP, it, ("sleep", 4)])])
+        yield case([_W(what, [["B", MATCH[what]]], [GAP, ("raw", 1, "A"), ("sleep", 2), ("cmd", 2, "A"), ("sleep", 4)])])
+        yield case([_W(what, [["A", MATCH[what]]], [GAP, ("raw", 1, "B"), ("sleep", 4)], on="B")])
+    yield case([_W("boot", [["A", 5]], [GAP, ("raw", 128, "A"), ("sleep", 2), ("hb", "A", 0x7F), ("sleep", 4)])])
+    # the time-out is one for the whole call, whatever keeps arriving meanwhile (time-out far above the 2 ms period)
+    yield case([_W("boot", [["A", 5]], timeout_ms=400)])
+    yield case([_W("boot", [["A", 0x7F], ["B", 0], ["A", 0x85]], [GAP, ("raw", 1, "A"), ("sleep", 2)], timeout_ms=400)])
+    yield case([_W("hb", [["B", 5], ["none", 0]], [GAP, ("raw", 1, "A"), ("sleep", 2)], timeout_ms=400)])
+
+    # (D) one object used for several waits: what arrived during an earlier wait is not a message of the next
+    for m1, w1 in ((0, "boot"), (0, "hb"), (5, "hb"), (0x80, "boot")):
+        for w2 in ("hb", "boot"):
+            yield case([_W(w1, [["A", m1]]), _W(w2, [] if w1 == w2 else [["B", 0]])])
+            yield case([_W(w1, [["A", m1]]), _W(w2, [["A", MATCH[w2]]], [("sleep", 120)])])
+    for w1 in ("hb", "boot"):
+        for w2 in ("hb", "boot"):
+            # a wait that failed leaves the object usable
+            yield case([_W(w1, []), _W(w2, [["A", MATCH[w2]]])])
+            yield case([_W(w1, [["B", 0]]), {"op": "cmd", "cs": 1, "to": "A"}, _W(w2, [["A", MATCH[w2]]])])
+    yield case([_W("hb", [["A", 5]]), _W("hb", [["B", 4]], on="B"), _W("hb", [["A", 4]])])
+    yield case([_W("boot", [["B", 0]], on="B"), _W("boot", [["B", 0]]), _W("boot", [["A", 0]], on="B")])
+
+
+HB_VALUES = [0, 4, 5, 127, 80, 96, 1]
+
+
+def enum_hb_seq(thorough):
+    """consecutive heartbeats: every one is decoded on its own (byte & 0x7F), whatever the previous one and
+    whatever the toggle bits were"""
+    H = lambda b, to="A": {"op": "hb", "byte": b, "to": to}   # noqa: E731
+    bts = HB_VALUES + [v | 0x80 for v in HB_VALUES]
+    for b1 in bts:
+        for b2 in bts:
+            yield _base("hbseq", "preop", [H(b1), H(b2)])
+            yield _base("hbseq", "init", [H(b1), H(b2, "B"), H(b2), H(b1, "B")])
+    t8 = [0x05, 0x85, 0x04, 0x84, 0x7F, 0xFF, 0x00, 0x80]
+    for b1 in t8:
+        for b2 in t8:
+            for b3 in t8:
+                yield _base("hbseq", "preop", [H(b1), H(b2), H(b3)])
+    if thorough:
+        for b1 in range(256):
+            for b2 in range(256):
+                yield _base("hbseq", "preop", [H(b1), H(b2)], pairs=1)
+
+
 # ---- Hypothesis histories ------------------------------------------------------------------
 def _cs():
     return st.one_of(st.sampled_from(DEF_CS), st.sampled_from(DEF_CS), st.sampled_from(UNDEF_CS + [4, 5, 126, 131]),
@@ -846,22 +1185,68 @@ def history(draw):
             "ops": draw(_OPS_1_12), "pairs": 2, "ctor": "od" if draw(_INT03) == 0 else "arg"}
 
 
+_T4 = st.sampled_from(["A", "all", "B", "none", "A", "all", "B", "none", "Ahi", "hi0", "hiF"])
+_T3 = st.sampled_from(["A", "A", "all", "B"])
+_PRE_ITEM = st.one_of(
+    st.builds(lambda c, t: ["raw", c, t], _cs(), _T4),
+    st.builds(lambda c, t: ["raw", c, t], _cs(), _T4),
+    st.builds(lambda c, t: ["cmd", c, t], _cs(), _T3),
+    st.builds(lambda t, b: ["hb", t, b], st.sampled_from(["B", "none", "B", "none", "A"]), st.integers(0, 255)),
+)
+_PRE_ITEMS = st.lists(_PRE_ITEM, min_size=1, max_size=4)
+_SILENCE = st.sampled_from([0, 0, 0, 0, 120, 250])
+_GAP_MS = st.integers(1, 5)
+
+
 @st.composite
-def wait_history(draw):
-    ids = draw(_IDS)
-    pre = draw(_OPS_0_3)
-    post = draw(_OPS_0_2)
+def _wait_op(draw, busy):
     what = draw(_WHAT)
     feed = draw(_FEED0 if what == "hb" else _FEED1)
     if what == "boot" and draw(_INT03) > 0:
         feed.append(["A", 0])
     if what == "hb":
-        # a return value is only determined when all frames for A decode alike
+        # a return value is only determined when all frames for the awaited node decode alike
         a = [f for f in feed if f[0] == "A"]
         for f in a[1:]:
             f[1] = a[0][1] ^ (0x80 if draw(_BOOL) else 0)
+    op = {"op": "wait", "what": what, "feed": feed}
+    pre = []
+    if busy:
+        pre = [["sleep", 12]]
+        for it in draw(_PRE_ITEMS):
+            if it[0] == "hb" and it[1] == "A":
+                # heartbeats of the awaited node that do not match: boot-up waits only
+                if what == "hb":
+                    it[1] = "B"
+                elif it[2] & 0x7F == 0:
+                    it[2] |= 5
+            pre += [it, ["sleep", draw(_GAP_MS)]]
+        silence = draw(_SILENCE)
+        if silence:
+            pre.insert(2 * draw(st.integers(0, (len(pre) - 1) // 2)), ["sleep", silence])
+        op["pre"] = pre
+    if draw(_INT03) == 0:
+        # the other RemoteNode is the one that waits: swap the roles of A and B in the schedule
+        sw = {"A": "B", "B": "A"}
+        op["on"] = "B"
+        op["feed"] = [[sw.get(to, to), b] for to, b in feed]
+        op["pre"] = [[it[0], sw.get(it[1], it[1]), it[2]] if it[0] == "hb" else
+                     [it[0], it[1], sw.get(it[2], it[2])] if it[0] in ("raw", "cmd") else it for it in pre]
+        if not pre:
+            del op["pre"]
+    return op
+
+
+@st.composite
+def wait_history(draw, busy=False):
+    ids = draw(_IDS)
+    pre = draw(_OPS_0_3)
+    post = draw(_OPS_0_2)
+    ops = pre + [draw(_wait_op(busy))] + post
+    if draw(_INT03) == 0:
+        ops.append(draw(_wait_op(False)))
     return {"fam": "hist", "ids": ids, "hb_ms": draw(_HB_MS), "mod": draw(_BOOL), "start": draw(_START),
-            "ops": pre + [{"op": "wait", "what": what, "feed": feed}] + post, "pairs": 2}
+            "ops": ops, "pairs": 2}
 
 
 def tour():
@@ -874,6 +1259,9 @@ def tour():
     yield next(x for x in enum_local() if len(x["ops"]) > 2 and x["hb_ms"])
     for want in ("wait/hb/returns", "wait/hb/NmtError", "wait/boot/returns", "wait/boot/NmtError"):
         yield next(x for x in enum_wait(False) if _klass(x).startswith(want))
+    for want in ("/delayed", "/cmd-frames-during"):
+        yield next(x for x in enum_wait_busy(False) if _klass(x).endswith(want))
+    yield next(x for x in enum_wait_busy(False) if any(op.get("timeout_ms") for op in x["ops"]))
     yield next(x for x in itertools.islice(enum_hb(), 1600, None) if len(x["ops"]) > 1)
 
 
@@ -882,17 +1270,24 @@ def search(ctx):
     if ctx.shard == 0:
         for case in tour():
             ctx.check(case)
-    ctx.enumerate(enum_short(), "all sequences of <=2 symbols (11 cs x {A,0,B}) x every issue route x 2 start states")
-    ctx.enumerate(enum_hb(), "all 256 heartbeat bytes x {A, B, unowned id} x 2 start states")
-    ctx.enumerate(enum_names(), "all documented names + invalid strings x {remote A/B, network, local A/B}")
-    ctx.enumerate(enum_local(), "local state assignments (pairs of names) with the slave's own heartbeat")
+    # the (few, slow) wait cases first: a loaded machine that exhausts the cooperative budget then cuts the
+    # big enumerations short, not the only cases that exercise the wait clause
     ctx.enumerate(enum_wait(thorough), "wait_for_heartbeat / wait_for_bootup matrix")
+    ctx.enumerate(enum_wait_busy(thorough), "waits with a silence before the match, with NMT command frames / send_command "
+                                            "calls / other heartbeats during the wait, several waits on one object")
+    ctx.enumerate(enum_hb_seq(thorough), "heartbeat pairs over 7 state values x toggle bit on one and on two nodes, triples "
+                                         "over 8 bytes" + (", all 65536 byte pairs" if thorough else ""))
+    ctx.enumerate(enum_names(), "all documented names + invalid strings x {remote A/B, network, local A/B}")
+    ctx.enumerate(enum_hb(), "all 256 heartbeat bytes x {A, B, unowned id} x 2 start states")
+    ctx.enumerate(enum_local(), "local state assignments (pairs of names) with the slave's own heartbeat")
+    ctx.enumerate(enum_short(), "all sequences of <=2 symbols (11 cs x {A,0,B}) x every issue route x 2 start states")
     # Hypothesis in chunks so that an exhausted budget stops it (the runner would otherwise keep generating)
     for k in range(8 if thorough else 2):
         if ctx.over_budget():
             break
         ctx.hypothesis(history(), 1000, salt=10 + k)
         ctx.hypothesis(wait_history(), 40 if thorough else 30, salt=30 + k)
+        ctx.hypothesis(wait_history(busy=True), 15 if thorough else 20, salt=50 + k)
     if thorough:
         _enum_skipping(ctx, enum_long(ctx, 3, ("preop", "init")),
                        "all sequences of 3 symbols x 2 start states (route per position rotates)")
